@@ -381,7 +381,7 @@ func runCase(id int, tc *tcase) {
 				} else if dd == hx.HexS("~") {
 					tc.tags["insig"] = true
 				}
-				if strings.Contains(d, "=:0:::") || strings.Contains(d, ";:0:::") {
+				if strings.Contains(d, "ms=:0::") || strings.Contains(d, ";:0::") {
 					tc.tags["missing"] = true
 				}
 				if bb, _ := hx.Field(d, "b"); bb == hx.HexS("[Geo mean]") {
